@@ -15,3 +15,10 @@ mod types;
 pub use decoder::{DecoderOption, H263State};
 pub use error::{Error, Result};
 pub use types::{PictureOption, PictureTypeCode};
+
+/// Verification hooks: internal types and decoder primitives, re-exported unchanged.
+#[cfg(feature = "verif-hooks")]
+pub mod verif_hooks {
+    pub use crate::decoder::verif_hooks::*;
+    pub use crate::types::*;
+}
